@@ -62,47 +62,59 @@ Proof.
   eapply rep_frame; [exact H | exact R].
 Qed.
 
-Lemma pstep_ok f m t o fuel g gh :
+Lemma pstep_ins_ok f m t k fuel g gh :
   MInv f m t -> Inv t -> (size t < fuel)%nat ->
   exists m' f' rc,
-    pstep fuel g gh m (to_pop o) = Ok (m', rc)
-    /\ step t o = (fst (step t o), rc)
-    /\ MInv f' m' (fst (step t o)) /\ Inv (fst (step t o))
-    /\ (size (fst (step t o)) <= S (size t))%nat.
+    pstep_ins fuel g gh m k = Ok (m', rc)
+    /\ step t (Ins k) = (fst (step t (Ins k)), rc)
+    /\ MInv f' m' (fst (step t (Ins k))) /\ Inv (fst (step t (Ins k)))
+    /\ (size (fst (step t (Ins k))) <= S (size t))%nat.
 Proof.
   intros (HR & Hlt) HI Hfuel. destruct m as [[s root] nx]. cbn [m_state m_next st_store st_root] in *.
   pose proof (depth_le_size t) as Hds.
-  destruct o as [k|k]; cbn [to_pop pstep step m_state m_next st_store st_root].
-  - (* insert *)
-    set (s0 := PM.add nx (garbage g gh k) s).
-    assert (Hnx : ~ In nx (idl f t)).
-    { intros Hi. apply Hlt in Hi. lia. }
-    assert (HR0 : RepF f s0 root t).
-    { eapply RepF_frame; [|exact HR]. intros i Hi. unfold s0. apply PM.gso. intros ->. contradiction. }
-    assert (Ha : PM.find nx s0 = Some (garbage g gh k)) by (unfold s0; apply PM.gss).
-    destruct (ptr_insert_C16 f s0 root t nx (garbage g gh k) fuel HR0 HI Ha ltac:(lia)) as (Hfresh & Hdup).
-    cbn [garbage n_key] in Hfresh, Hdup. unfold PM.key in *.
-    destruct (in_dec Z.eq_dec k (inorder t)) as [Hin|Hnin].
-    + destruct (Hdup Hin) as (E1 & E2). rewrite E2. cbn [bind]. rewrite E1. cbn [fst].
-      change (-1 =? 0) with false. cbv iota.
-      eexists _, f, (-1). split; [reflexivity|]. split; [reflexivity|].
-      split; [|split; [exact HI | lia]].
-      split; cbn [m_state m_next free_node st_store st_root].
-      * eapply RepF_frame; [|exact HR]. intros i Hi.
-        assert (i <> nx) by (intros ->; contradiction).
-        rewrite PM.gro by assumption. unfold s0. apply PM.gso. assumption.
-      * intros i Hi. apply Hlt in Hi. lia.
-    + destruct (Hfresh Hnin) as (t' & s' & root' & f' & E1 & E2 & HR' & HI' & Hino & Hfk & Hag & Fr).
-      rewrite E2. cbn [bind]. rewrite E1. cbn [fst]. change (0 =? 0) with true. cbv iota.
-      eexists _, f', 0. split; [reflexivity|]. split; [reflexivity|].
-      split; [|split; [exact HI'|]].
-      * split; cbn [m_state m_next st_store st_root]; [exact HR'|].
-        intros i Hi. apply in_map_iff in Hi. destruct Hi as (x & <- & Hx).
-        rewrite Hino in Hx. apply in_ins_sorted in Hx. destruct Hx as [->|Hx].
-        -- rewrite Hfk. lia.
-        -- rewrite (Hag x Hx). assert (f x < nx)%positive by (apply Hlt; apply in_map; exact Hx). lia.
-      * rewrite <- !length_inorder, Hino, length_ins_sorted. lia.
-  - (* delete *)
+  unfold pstep_ins. cbn [step m_state m_next st_store st_root].
+  set (s0 := PM.add nx (garbage g gh k) s).
+  assert (Hnx : ~ In nx (idl f t)).
+  { intros Hi. apply Hlt in Hi. lia. }
+  assert (HR0 : RepF f s0 root t).
+  { eapply RepF_frame; [|exact HR]. intros i Hi. unfold s0. apply PM.gso. intros ->. contradiction. }
+  assert (Ha : PM.find nx s0 = Some (garbage g gh k)) by (unfold s0; apply PM.gss).
+  destruct (ptr_insert_C16 f s0 root t nx (garbage g gh k) fuel HR0 HI Ha ltac:(lia)) as (Hfresh & Hdup).
+  cbn [garbage n_key] in Hfresh, Hdup. unfold PM.key in *.
+  destruct (in_dec Z.eq_dec k (inorder t)) as [Hin|Hnin].
+  + destruct (Hdup Hin) as (E1 & E2). rewrite E2. cbn [bind]. rewrite E1. cbn [fst].
+    change (-1 =? 0) with false. cbv iota.
+    eexists _, f, (-1). split; [reflexivity|]. split; [reflexivity|].
+    split; [|split; [exact HI | lia]].
+    split; cbn [m_state m_next free_node st_store st_root].
+    * eapply RepF_frame; [|exact HR]. intros i Hi.
+      assert (i <> nx) by (intros ->; contradiction).
+      rewrite PM.gro by assumption. unfold s0. apply PM.gso. assumption.
+    * intros i Hi. apply Hlt in Hi. lia.
+  + destruct (Hfresh Hnin) as (t' & s' & root' & f' & E1 & E2 & HR' & HI' & Hino & Hfk & Hag & Fr).
+    rewrite E2. cbn [bind]. rewrite E1. cbn [fst]. change (0 =? 0) with true. cbv iota.
+    eexists _, f', 0. split; [reflexivity|]. split; [reflexivity|].
+    split; [|split; [exact HI'|]].
+    * split; cbn [m_state m_next st_store st_root]; [exact HR'|].
+      intros i Hi. apply in_map_iff in Hi. destruct Hi as (x & <- & Hx).
+      rewrite Hino in Hx. apply in_ins_sorted in Hx. destruct Hx as [->|Hx].
+      -- rewrite Hfk. lia.
+      -- rewrite (Hag x Hx). assert (f x < nx)%positive by (apply Hlt; apply in_map; exact Hx). lia.
+    * rewrite <- !length_inorder, Hino, length_ins_sorted. lia.
+Qed.
+
+Lemma pstep_ok f m t p fuel g gh :
+  MInv f m t -> Inv t -> (size t < fuel)%nat ->
+  exists m' f' rc,
+    pstep fuel g gh m p = Ok (m', rc)
+    /\ step t (pop_op p) = (fst (step t (pop_op p)), rc)
+    /\ MInv f' m' (fst (step t (pop_op p))) /\ Inv (fst (step t (pop_op p)))
+    /\ (size (fst (step t (pop_op p))) <= S (size t))%nat.
+Proof.
+  intros HM HI Hfuel. destruct p as [k|k|k]; cbn [pstep pop_op].
+  - apply (pstep_ins_ok f); assumption.
+  - destruct HM as (HR & Hlt). destruct m as [[s root] nx]. cbn [m_state m_next st_store st_root] in *.
+    pose proof (depth_le_size t) as Hds. cbn [step].
     pose proof (lookup_z f (mkState s root) k t [] fuel (RepF_zrep _ _ _ _ HR) ltac:(lia)) as HL.
     pose proof HR as (_ & Hroot & _). rewrite <- Hroot in HL. rewrite HL. cbn [bind]. unfold AvlModel.delete.
     destruct (AvlModel.find k t []) as [[tn c]|] eqn:Hf.
@@ -124,19 +136,55 @@ Proof.
     + cbn [fst]. eexists _, f, 1. split; [reflexivity|]. split; [reflexivity|].
       split; [|split; [exact HI | lia]].
       split; cbn [m_state m_next st_store st_root]; [exact HR | exact Hlt].
+  - (* the linked node itself is handed to insert again *)
+    pose proof HM as (HR & Hlt). destruct m as [[s root] nx]. cbn [m_state m_next st_store st_root] in *.
+    pose proof (depth_le_size t) as Hds.
+    pose proof (lookup_z f (mkState s root) k t [] fuel (RepF_zrep _ _ _ _ HR) ltac:(lia)) as HL.
+    pose proof HR as (_ & Hroot & Hrep). rewrite <- Hroot in HL. rewrite HL. cbn [bind].
+    destruct (AvlModel.find k t []) as [[tn c]|] eqn:Hf.
+    + destruct (find_some k t [] tn c Hf) as (l & h & r & -> & Hplug). cbn [tptr plug] in *.
+      assert (Hin : In k (inorder t)).
+      { rewrite <- Hplug, inorder_plug. cbn [inorder]. rewrite !in_app_iff. cbn [In]. tauto. }
+      destruct (rep_find f s t None k Hrep Hin) as (n & Hn & Hkey).
+      destruct (ptr_insert_C16 f s root t (f k) n fuel HR HI Hn ltac:(lia)) as (_ & Hdup).
+      rewrite Hkey in Hdup. destruct (Hdup Hin) as (E1 & E2).
+      unfold PM.key in *. rewrite E2. cbn [bind fst snd step]. rewrite E1. cbn [fst].
+      eexists _, f, (-1). split; [reflexivity|]. split; [reflexivity|].
+      split; [|split; [exact HI | lia]].
+      split; cbn [m_state m_next st_store st_root]; assumption.
+    + apply (pstep_ins_ok f (mkMachine (mkState s root) nx) t k fuel g gh); [split|..]; assumption.
 Qed.
 
-Lemma prun_ok : forall ops f m t fuel g gh,
-  MInv f m t -> Inv t -> (size t + length ops < fuel)%nat ->
-  exists m' f', prun fuel g gh (map to_pop ops) m = Ok m' /\ MInv f' m' (run ops t) /\ Inv (run ops t).
+Lemma prun_ok : forall pops f m t fuel g gh,
+  MInv f m t -> Inv t -> (size t + length pops < fuel)%nat ->
+  exists m' f', prun fuel g gh pops m = Ok m'
+    /\ MInv f' m' (run (map pop_op pops) t) /\ Inv (run (map pop_op pops) t).
 Proof.
-  induction ops as [|o ops IH]; intros f m t fuel g gh HM HI Hfuel.
+  induction pops as [|o pops IH]; intros f m t fuel g gh HM HI Hfuel.
   - exists m, f. cbn [map prun run fold_left]. auto.
   - cbn [length] in Hfuel.
     destruct (pstep_ok f m t o fuel g gh HM HI ltac:(lia)) as (m' & f' & rc & E1 & E2 & HM' & HI' & Hsz).
     cbn [map prun]. rewrite E1. cbn [bind fst].
-    destruct (IH f' m' (fst (step t o)) fuel g gh HM' HI' ltac:(lia)) as (m'' & f'' & E3 & HM'' & HI'').
+    destruct (IH f' m' (fst (step t (pop_op o))) fuel g gh HM' HI' ltac:(lia)) as (m'' & f'' & E3 & HM'' & HI'').
     exists m'', f''. split; [exact E3|]. split; [exact HM'' | exact HI''].
+Qed.
+
+(* histories over the three driver operations (fresh insert, delete, insert of
+   the already linked node): the functional counterpart of PReins k is Ins k *)
+Theorem ptr_history_pops :
+  forall pops fuel g gh, (length pops < fuel)%nat ->
+    exists m f,
+      prun fuel g gh pops empty_machine = Ok m
+      /\ RepF f (st_store (m_state m)) (st_root (m_state m)) (run (map pop_op pops) E)
+      /\ Inv (run (map pop_op pops) E).
+Proof.
+  intros pops fuel g gh Hfuel.
+  destruct (prun_ok pops (fun _ => 1%positive) empty_machine E fuel g gh) as (m & f & E1 & (HR & _) & HI).
+  - split; [|intros i []]. cbn [empty_machine m_state st_store st_root].
+    split; [constructor|]. split; reflexivity.
+  - split; [constructor | exact I].
+  - cbn [size]. lia.
+  - exists m, f. auto.
 Qed.
 
 Theorem ptr_history :
@@ -147,10 +195,9 @@ Theorem ptr_history :
       /\ Inv (run ops E).
 Proof.
   intros ops fuel g gh Hfuel.
-  destruct (prun_ok ops (fun _ => 1%positive) empty_machine E fuel g gh) as (m & f & E1 & (HR & _) & HI).
-  - split; [|intros i []]. cbn [empty_machine m_state st_store st_root].
-    split; [constructor|]. split; reflexivity.
-  - split; [constructor | exact I].
-  - cbn [size]. lia.
-  - exists m, f. auto.
+  assert (Hid : map pop_op (map to_pop ops) = ops).
+  { rewrite map_map. rewrite <- (map_id ops) at 2. apply map_ext. intros [k|k]; reflexivity. }
+  destruct (ptr_history_pops (map to_pop ops) fuel g gh) as (m & f & A & B & C).
+  - rewrite map_length. exact Hfuel.
+  - rewrite Hid in B, C. exists m, f. auto.
 Qed.
